@@ -208,6 +208,11 @@ OP = st.one_of(
     st.tuples(st.just("set_table"), O, st.lists(st.tuples(st.sampled_from("ab"), P).map(list), max_size=2)),
     st.tuples(st.just("group_add"), O, P), st.tuples(st.just("group_discard"), O, P),
     st.tuples(st.just("set_group"), O, st.lists(P, max_size=2)),
+    # bulk set operations with several arguments (each produces ONE event naming everything that left / arrived)
+    st.tuples(st.just("group_intersect"), O, st.lists(P, max_size=3), st.lists(P, max_size=3)),
+    st.tuples(st.just("group_diff"), O, st.lists(P, max_size=2), st.lists(P, max_size=2)),
+    st.tuples(st.just("group_update"), O, st.lists(P, max_size=2), st.lists(P, max_size=2)),
+    st.tuples(st.just("group_symdiff"), O, st.lists(P, max_size=3)),
     st.tuples(st.just("insert"), O, st.integers(-3, 3), P, LA),
     st.tuples(st.just("slice_set"), O, st.integers(0, 2), st.integers(0, 3), st.lists(P, max_size=2), LA),
     # replace a slice by k copies of its first element: changes the multiplicity of an object in the list
@@ -512,6 +517,14 @@ def run(case, ctx):
                     c.add(tgt(op[2]))
                 elif k == "group_discard":
                     c.discard(tgt(op[2]))
+                elif k == "group_intersect":
+                    c.intersection_update([tgt(i) for i in op[2]], {tgt(i) for i in op[3]})
+                elif k == "group_diff":
+                    c.difference_update([tgt(i) for i in op[2]], {tgt(i) for i in op[3]})
+                elif k == "group_update":
+                    c.update([tgt(i) for i in op[2]], {tgt(i) for i in op[3]})
+                elif k == "group_symdiff":
+                    c.symmetric_difference_update([tgt(i) for i in op[2]])
             except Exception as e:
                 ctx.fail("step/raised" + ("/self-referential" if (self_ref or tainted[0]) else ""),
                          "%r: %r raised %r" % (text, op, e))
